@@ -1,15 +1,19 @@
-//@prelude u128
-//@include inc/u256.rs
+//@prelude u64
 //@include inc/specs_arith.rs
 // =================================================================================================
-// C01  Fixed-point arithmetic is exact with the documented rounding (instance: u128 / i128, 20 dec)
+// C01  Fixed-point arithmetic is exact with the documented rounding (instance: u64 / i64, 9 dec — the instance the model's own tests use)
 // Every unit below is the function text of /repo, extracted on this run; the contract above each
 // body is written from the property statement: result == integer spec in the documented
 // direction, failure exactly on the stated set.
 // =================================================================================================
 verus! {
 
-// ---- leaf: impl MulDiv for u128 (via ruint U256, assumed contract inc/u256.rs) ---------------------
+// ASSUMED std contract (vstd has none): u128::div_ceil is ceiling division, panics on zero divisor.
+pub assume_specification [u128::div_ceil] (a: u128, b: u128) -> (r: u128)
+    requires b != 0
+    ensures r == (a as int + b as int - 1) / (b as int);
+
+// ---- leaf: impl MulDiv for u64 (via u128 intermediate) --------------------------------------------
 pub trait MulDivLeaf: Sized {
     spec fn val(&self) -> int;
     spec fn tmax() -> int;
@@ -27,25 +31,25 @@ pub trait MulDivLeaf: Sized {
                 ==> r.is_some() && r.unwrap().val() == mul_div_ceil(self.val(), numerator.val(), denominator.val());
 }
 
-impl MulDivLeaf for u128 {
+impl MulDivLeaf for u64 {
     open spec fn val(&self) -> int { *self as int }
-    open spec fn tmax() -> int { u128::MAX as int }
+    open spec fn tmax() -> int { u64::MAX as int }
 
-//@unit C01.u128.checked_mul_div
+//@unit C01.u64.checked_mul_div
 //@ file crates/model/src/num.rs
-//@ within mod u128 >> impl MulDiv for u128
+//@ within impl MulDiv for u64
 //@ fn checked_mul_div
 //@ sig fn checked_mul_div(&self, numerator: &Self, denominator: &Self) -> Option<Self>
-//@ top :: proof { broadcast use axiom_u256_view, axiom_u256_range; lemma_mul_upper_bound(*self as int, u128::MAX as int, *numerator as int, u128::MAX as int); }
+//@ top :: proof { lemma_mul_upper_bound(*self as int, u64::MAX as int, *numerator as int, u64::MAX as int); lemma_mul_nonnegative(*self as int, *numerator as int); }
     fn checked_mul_div(&self, numerator: &Self, denominator: &Self) -> (r: Option<Self>)
 //@body
 
-//@unit C01.u128.checked_mul_div_ceil
+//@unit C01.u64.checked_mul_div_ceil
 //@ file crates/model/src/num.rs
-//@ within mod u128 >> impl MulDiv for u128
+//@ within impl MulDiv for u64
 //@ fn checked_mul_div_ceil
 //@ sig fn checked_mul_div_ceil(&self, numerator: &Self, denominator: &Self) -> Option<Self>
-//@ top :: proof { broadcast use axiom_u256_view, axiom_u256_range; lemma_mul_upper_bound(*self as int, u128::MAX as int, *numerator as int, u128::MAX as int); }
+//@ top :: proof { lemma_mul_upper_bound(*self as int, u64::MAX as int, *numerator as int, u64::MAX as int); lemma_mul_nonnegative(*self as int, *numerator as int); }
     fn checked_mul_div_ceil(&self, numerator: &Self, denominator: &Self) -> (r: Option<Self>)
 //@body
 }
